@@ -47,6 +47,7 @@ Fails(e) ==
     [] e.op = "hop_trace"     -> JHopTrace(e)
     [] e.op = "iso_trace"     -> JIsoTrace(e)
     [] e.op = "rip_trace"     -> JRipTrace(e)
+    [] e.op = "pc_trace"      -> JPcTrace(e)
     [] e.op = "unit_trace"    -> JUnitTrace(e)
     [] e.op = "path_trace"    -> JPathTrace(e)
     [] e.op = "sched_replay"  -> JSchedReplay(e)
